@@ -39,6 +39,11 @@ func (in *Interp) formatOperand(fr *frame, verb byte, arg Value) Str {
 		}
 		return Str{S: "%!" + string(verb) + "(<nil>)"}
 	}
+	if n, ok := f.V.(Native); ok {
+		if e, isErr := n.X.(error); isErr {
+			return in.quoteIf(verb, Str{S: e.Error()})
+		}
+	}
 	// error / Stringer take precedence for %v %s %q
 	if verb == 'v' || verb == 's' || verb == 'q' {
 		if sig := in.methodSig(f.T, "Error"); sig != nil && sig.Params().Len() == 0 && sig.Results().Len() == 1 && isStringType(sig.Results().At(0).Type()) {
@@ -293,6 +298,12 @@ func fmtErrorf(in *Interp, fr *frame, fn *ssa.Function, a []Value) (Value, bool)
 	var errs []Value
 	for _, w := range r.wrapped {
 		itf := in.resolveIface(fr, w)
+		if n, ok := itf.V.(Native); ok {
+			if _, isErr := n.X.(error); isErr {
+				errs = append(errs, itf)
+				continue
+			}
+		}
 		if itf.T != nil && in.methodSig(itf.T, "Error") != nil {
 			errs = append(errs, itf)
 		}
